@@ -112,6 +112,7 @@ class _Filter(Contract):
               ("result_is_real_part", z3.BoolVal(isinstance(res, voxels.FilteredMap) and res.real))]
         if not isinstance(res, voxels.FilteredMap) or len(res.gains) != 1:
             return cl
+        cl.append(("spectrum_is_back_in_natural_layout_at_the_inverse_transform", z3.And(*[r == 0 for r in res.spectrum_roll]) if res.spectrum_roll else z3.BoolVal(True), ("local",)))
         G = res.gains[0]
         k = _freq(size)
         hy = [_inb(size)]
